@@ -227,6 +227,22 @@ theorem update_count_ok (st : Sspoc) (n : Option PyCount) (thr : Option Rat) (xy
     (st.updateSensors n thr xy mag none).1.CountOk :=
   update_count_ok_gen st n thr xy mag none hmag h
 
+/-- **C08 (reported count), also when the refit is refused.**  `update_sensors(…, xy)` whose refit data the classifier refuses
+(finding F16: the call is rejected after the selection was stored) still leaves the reported count equal to the number of
+selected sensors – whether the argument checks rejected the call (nothing changed) or the classifier did. -/
+theorem updateRefused_count_ok (st : Sspoc) (n : Option PyCount) (thr : Option Rat) (mag : List Rat)
+    (hmag : mag.length = st.nFeat) (h : st.CountOk) : (st.updateRefused n thr mag).1.CountOk := by
+  unfold Sspoc.updateRefused
+  cases he : (st.updateSensors n thr false mag none).2 with
+  | some e =>
+    simp only [he]
+    have := update_rejected_unchanged st n thr false mag (by rw [he]; simp)
+    rw [this]; exact h
+  | none =>
+    simp only [he]
+    have hc := update_count_ok st n thr false mag hmag he
+    split <;> exact hc
+
 /-- … and after every accepted `fit` (the default selection has valid distinct indices) -/
 theorem fit_count_ok (st : Sspoc) (nFeat : Nat) (refit : Bool) (mag : List Rat) (dflt : List Nat)
     (hmag : mag.length = nFeat) (h : (st.fit nFeat refit mag dflt).2 = none) :
